@@ -625,11 +625,35 @@ def name_collision_cases(tier):
         for v in vals[:2]:
             out.append({"kind": "model-enum", "v1": v, "order": order})
             out.append({"kind": "model-model", "v1": v, "order": order})
+    # a nested inline object whose property name adds nothing to its container's class name
+    for pname in ("_", "__", "-", "$"):
+        for container in ("component-property", "request-body"):
+            out.append({"kind": "nested-inline", "pname": pname, "container": container})
     return out
 
 
 def name_collision(case):
     s = {"type": "string"}
+    if case["kind"] == "nested-inline":
+        inner = {"type": "object", "properties": {"latitude": {"type": "number"}}}
+        outer = {"type": "object", "properties": {"street": s, case["pname"]: inner}}
+        if case["container"] == "component-property":
+            doc = _base(schemas={"Order": {"type": "object", "properties": {"shipping": outer}}})
+        else:
+            doc = _base({"/x": {"post": {"operationId": "op", "requestBody": {"content": {"application/json": {"schema": outer}}},
+                                         "responses": {"200": {"description": ""}}}}})
+        try:
+            data = _parse(doc)
+        except _Timeout:
+            return "parser did not terminate"
+        except BaseException as e:  # noqa
+            return f"parser raised {type(e).__name__}: {str(e)[:100]}"
+        if data.errors or (hasattr(data, "endpoint_collections_by_tag") and _all_errors(data)):
+            return None
+        props = sorted(p.name for m in data.models for p in (m.required_properties or []) + (m.optional_properties or []))
+        if "latitude" not in props or "street" not in props:
+            return f"an inline object schema vanished without a diagnostic: the generated classes declare only {props}"
+        return None
     if case["kind"] == "enum-enum":
         a = {"Job": {"type": "object", "properties": {"retry_interval": {"type": "string", "enum": case["v1"]}}}}
         b = {"JobRetry": {"type": "object", "properties": {"interval": {"type": "string", "enum": case["v2"]}}}}
